@@ -245,7 +245,7 @@ def run(ctx):
                         judge(ctx, start, end, d, h, inc, ids=(k % 37 == 0))
 
     for _ in range(ctx.scale(1500, 8000)):
-        style = rng.choice(["decimal", "decimal", "free", "tiny_hop", "samples"])
+        style = rng.choice(["decimal", "decimal", "free", "tiny_hop", "samples", "submilli"])
         if style == "decimal":
             start = round(rng.choice([0, 0.1, 0.3, 1.7, 12.3]), 1)
             L = round(rng.choice([0.7, 1.0, 2.5, 9.9, 10.0, 59.9, 60.0]), 1)
@@ -257,6 +257,10 @@ def run(ctx):
             L = rng.randrange(1, 3 * sr) / sr
             d = rng.choice([256, 512, 1024, 4096]) / sr
             h = rng.choice([None, 128 / sr, 256 / sr, 512 / sr])
+        elif style == "submilli":
+            # ultrasonic work: windows of a few ms, hops well below one millisecond
+            start = rng.choice([0.0, 1.0, 12.3456]); L = rng.choice([0.01, 0.05, 0.0503])
+            d = rng.choice([0.002, 0.004, 0.0005]); h = rng.choice([0.00025, 0.0005, 0.0001, 1 / 8192])
         elif style == "tiny_hop":
             start = rng.uniform(0, 10); L = rng.uniform(0.5, 2); d = rng.uniform(0.1, 1.0); h = rng.uniform(0.003, 0.02)
         else:
@@ -268,7 +272,7 @@ def run(ctx):
         if len(want) > 5000:
             continue
         ctx.case(("random", style) + _cls(L, d, hh, inc), {"start": start, "end": end, "duration": d, "hop": h, "inc": inc}, nontrivial=len(want) >= 2)
-        judge(ctx, start, end, d, h, inc, ids=rng.random() < 0.05)
+        judge(ctx, start, end, d, h, inc, ids=rng.random() < 0.05 or style == "submilli")
 
 
 def replay(ctx, w):
